@@ -12,7 +12,7 @@ EXPLANATION = ("Structural necessary conditions of C01 decided over every CFG pa
                "resume the deepest stored alternative first; the value returned as an answer comes from the child / tail / "
                "head search or the head unification and from nowhere else; the clause count is count_rules(kb, key of the "
                "node's own goal). Decides these shapes, not equality with a reference interpreter on all programs.")
-RULES = ("R1 persistent sets; R2 provenance of the set/parent/goal arguments at the clause loop, And tail, Or tail and "
+RULES = ("R9 = C06/R4 (running set threaded through unify), R10 = C10/R3 (id discipline); R1 persistent sets; R2 provenance of the set/parent/goal arguments at the clause loop, And tail, Or tail and "
          "make_solution_node arms; R3 clause order; R4 left-to-right; R5 re-entry order; R6 answer provenance; R7 clause count")
 TRUSTED = ["rustc nightly HIR/MIR construction", "std Vec/HashMap/Rc semantics",
            "bounded unrolling: loop bodies walked up to 3 times per path"]
@@ -505,3 +505,21 @@ def run(ctx):
     ctx.ob("R8", "answer-text-positions", ok and n > 0 and start_ok and not rev, ctx.where(FS), why or (
         "each variable of the query is printed with the result term at the same argument position, positions 1.. in ascending order"
         if start_ok and not rev else "the argument positions are not walked from 1 upwards"))
+
+    # ---- R9 / R10: the clauses of other properties that C01's answers depend on ------------------------------------
+    # (unification threads the running set through element-wise terms — C06/R4; ids handed to renamed clauses are
+    #  fresh with respect to live variables — C10/R3)
+    import importlib
+    for modname, rules, tag in (("rules.C06", ("R4",), "R9"), ("rules.C10", ("R3",), "R10")):
+        mod = importlib.import_module(modname)
+        before = len(ctx.obs)
+        mod.run(ctx)
+        keep = []
+        for o in ctx.obs[before:]:
+            if o["rule"] in rules:
+                o["instance"] = "%s.%s.%s" % (modname.split(".")[-1], o["rule"], o["instance"])
+                o["rule"] = tag
+                o["key"] = "C01/%s/%s" % (tag, o["instance"])
+                keep.append(o)
+        del ctx.obs[before:]
+        ctx.obs.extend(keep)
